@@ -35,6 +35,11 @@ CLAIMED = {
     note="Trusted: Coq kernel (axiom-free theorems); the state of Python-level caches (class-level compiled model, module caches) is covered by the differential run only; harness/c11.py.",
     technique="Coq proof (generic over the carrier) + fresh-process differential histories",
     design="DESIGN.md §3 C11"),
+ "C15": dict(
+    text="Coq scanners over character lists reproducing the three regex substitutions of convert_type, with theorems for ALL strings: the float tagger only inserts the suffix, only after a decimal floating literal of the stated grammar that starts after a non-word character and is followed by one (C15_tag_float_tagged, C15_match_float_sound); the keyword conversion only replaces the letters 'double' where [c]double[2|4|8|16] is delimited on both sides (C15_conv_double_retyped); integer promotion only inserts decimal points; double precision does nothing else. Tied to the code by extracting the scanners to OCaml and comparing with generate.convert_type byte-for-byte on the generated sources of the compiled models x {float32, float64, long double}, all strings up to length 3 (quick) / 5 (thorough) over a 16-symbol alphabet, and random concatenations of tricky C pieces; plus a model-free token-level oracle (own C tokenizer) stating the property directly, and the dtype-spelling table against parse_dtype.",
+    note="Trusted: Coq kernel (axiom-free theorems); extraction with ExtrOcamlBasic only (no Extract Constant/Inductive of our own), OCaml 4.13.1, 40-line driver (hex codec); ASCII input only; completeness (every literal of a well-formed token stream is converted) is established by the token-level oracle and the correspondence, not by a theorem; strings / hex floats are recorded known findings.",
+    technique="Coq proof (scanner soundness for all strings) + extraction-based correspondence + token-level oracle",
+    design="DESIGN.md §3 C15"),
 }
 NA_REASON = "check not built yet in this session (planned, see DESIGN.md §7)"
 
